@@ -159,5 +159,7 @@ def run(ctx):
     ctx.not_decided("that hash_with_dxdy returns the right (h, dx, dy) in the first place (C03, float numerics)")
     ctx.assume("dx, dy in [0, 1] (C03's undecided float clause) for the sign claims")
     ctx.extra["exhaustive"] = True
+    from rules import scale
+    scale.run(ctx, ctx.crate("rel"), list(range(30)))
     from rules import cancellation
     cancellation.check(ctx, ctx.crate("rel"), ['nested::bilinear_interpolation', 'nested::Layer::bilinear_interpolation'], floor=32)
